@@ -21,6 +21,10 @@ pub struct GtCase {
     pub gt: String,
     pub bcf: bool,
     pub selected: bool,
+    /// number of alleles in the record's ALT column (None = 3, as in the first version of this
+    /// check); the classification of a genotype depends on its allele indices alone
+    #[serde(default)]
+    pub n_alt: Option<u8>,
 }
 
 pub fn all_gt_strings(alleles: &[Option<u8>], max_ploidy: usize) -> Vec<String> {
@@ -57,14 +61,14 @@ pub fn all_gt_strings(alleles: &[Option<u8>], max_ploidy: usize) -> Vec<String> 
 const CONTIG: &str = "ctgQz81";
 const POS: u64 = 48213;
 
-fn one_record_callset(gt: &Gt) -> CallSet {
+fn one_record_callset(gt: &Gt, n_alt: u8) -> CallSet {
     CallSet {
         contigs: vec!["ctgOther5".into(), CONTIG.into()],
         samples: vec!["probe".into(), "mate".into()],
         records: vec![Record {
             contig: 1,
             pos: POS,
-            n_alt: 3,
+            n_alt,
             symbolic: false,
             id: false,
             qual: None,
@@ -89,7 +93,7 @@ fn names_site(stderr: &str) -> bool {
 fn eval_gt(ctx: &Ctx, case: &GtCase) -> Verdict {
     let dir = ctx.worker_dir(crate::engine::worker_id());
     let gt = Gt::parse(&case.gt);
-    let cs = one_record_callset(&gt);
+    let cs = one_record_callset(&gt, case.n_alt.unwrap_or(3));
     let container = if case.bcf { Container::BcfRaw } else { Container::Vcf };
     let entries = if case.selected { vec![(1, None), (0, None)] } else { vec![(1, None)] };
     let map = MapSpec {
@@ -103,7 +107,7 @@ fn eval_gt(ctx: &Ctx, case: &GtCase) -> Verdict {
         ..Default::default()
     };
     let (run, argv) = run_create(ctx, &dir, "c08", &cs, &container, &opts, Transport::Path);
-    let what = format!("GT {:?} in the {} path, probe sample {} (`sfs {}`)", case.gt, if case.bcf { "BCF" } else { "VCF" }, if case.selected { "selected" } else { "NOT selected" }, argv.join(" "));
+    let what = format!("GT {:?} (ALT column with {} alleles) in the {} path, probe sample {} (`sfs {}`)", case.gt, case.n_alt.unwrap_or(3), if case.bcf { "BCF" } else { "VCF" }, if case.selected { "selected" } else { "NOT selected" }, argv.join(" "));
     let bare_dot = case.gt == ".";
     let stderr = run.stderr_str();
     ensure!(!run.panicked(), "{what}: panic: {}", run.describe());
@@ -246,7 +250,7 @@ pub fn check(ctx: &Ctx) -> Check {
     let parts: Vec<Box<dyn Part>> = vec![
         Box::new(EnumPart {
             name: "gt-alphabet",
-            rule: "EVERY GT string over alleles {., 0, 1, 2, 3, 10}, separators {/, |}, ploidy 1..3 (942 strings; plus allele indices 255..257, 511..513, 65536/7, 2^32(+1) in the VCF path; thorough adds ploidy 4 over {., 0, 1, 2} and every allele index up to 62) x {VCF text, BCF binary} x {probe sample selected, not selected}, one record with a distinctive contig and position, `sfs create -vv`: counted at index a+b / skipped with the stated reason / run fails naming contig and position / no effect when unselected; non-trivial = not one of the 11 strings the unit tests use; distinct by (string, path, selection)",
+            rule: "EVERY GT string over alleles {., 0, 1, 2, 3, 10}, separators {/, |}, ploidy 1..3 (942 strings; plus allele indices 255..257, 511..513, 65536/7, 2^32(+1) in the VCF path; thorough adds ploidy 4 over {., 0, 1, 2} and every allele index up to 62) x {VCF text, BCF binary} x {probe sample selected, not selected}, plus every string of ploidy <= 2 in records whose ALT column has 0 or 1 alleles (fewer than the genotype refers to), one record with a distinctive contig and position, `sfs create -vv`: counted at index a+b / skipped with the stated reason / run fails naming contig and position / no effect when unselected; non-trivial = not one of the 11 strings the unit tests use; distinct by (string, path, selection)",
             exhaustive: true,
             cases: Box::new(move |_| {
                 let mut strings = all_gt_strings(&[None, Some(0), Some(1), Some(2), Some(3), Some(10)], 3);
@@ -262,7 +266,16 @@ pub fn check(ctx: &Ctx) -> Check {
                 for gt in strings {
                     for bcf in [false, true] {
                         for selected in [true, false] {
-                            v.push(GtCase { gt: gt.clone(), bcf, selected });
+                            v.push(GtCase { gt: gt.clone(), bcf, selected, n_alt: None });
+                        }
+                    }
+                }
+                // the same strings (ploidy <= 2) in records whose ALT column lists fewer alleles than
+                // the genotype refers to (ALT '.', one ALT allele): the class follows the indices alone
+                for gt in all_gt_strings(&[None, Some(0), Some(1), Some(2), Some(3)], 2) {
+                    for n_alt in [0u8, 1] {
+                        for bcf in [false, true] {
+                            v.push(GtCase { gt: gt.clone(), bcf, selected: true, n_alt: Some(n_alt) });
                         }
                     }
                 }
@@ -270,8 +283,8 @@ pub fn check(ctx: &Ctx) -> Check {
                 // end at 62); all are multiallelic
                 for a in ["255", "256", "257", "511", "512", "513", "65536", "65537", "4294967296", "4294967297"] {
                     for gt in [format!("0/{a}"), format!("{a}|0"), format!("1/{a}"), format!("{a}/1"), format!("{a}/{a}"), format!("./{a}")] {
-                        v.push(GtCase { gt: gt.clone(), bcf: false, selected: true });
-                        v.push(GtCase { gt, bcf: false, selected: false });
+                        v.push(GtCase { gt: gt.clone(), bcf: false, selected: true, n_alt: None });
+                        v.push(GtCase { gt, bcf: false, selected: false, n_alt: None });
                     }
                 }
                 v
